@@ -44,7 +44,7 @@ CLAIMED["C09"] = dict(engine="split", design="4 C09",
         "key indexes, duplicate-field blocks never registered); for every text an entry repeating a field name is emitted as a duplicate-field "
         "block whose inner entry keeps every occurrence; tied to /repo by correspondence on grammar documents with colliding key pools "
         "(incl. previous_block identity) and an independent Python oracle; incremental parsing (Splitter.split(library=L), parse_string(library=L)) is "
-        "modelled (split_into), proved equal to adding all blocks in one go (C09_incremental) and compared (op 135).",
+        "modelled (split_into), proved equal to adding all blocks in one go (C09_incremental) and compared (op 135); at object level (heap model): a library-level deep copy keeps every duplicate wrapper's link to the first block inside the copy (C09_copy_keeps_previous_block_live, from the isomorphism theorem of the executable deep copy), the per-block copies of a copy-mode block middleware do not (C09_block_copy_mode_refuted_K13, open finding K13); every path that copies or rebuilds a library is judged by identity of previous_block.",
    note="'one raw block per source block of a well-formed document' is C02's theorem/correspondence; model hand-written, tied by correspondence",
    technique="Coq proof (fold invariant over Library.add; field-name invariant over the splitter machine) + differential correspondence via extracted model")
 CLAIMED["C19"] = dict(engine="entry", design="4 C19",
@@ -129,8 +129,8 @@ CLAIMED["C02"] = dict(engine="split", design="4 C02",
         "(they are C09's subject); model hand-written, tied by correspondence; extraction cross-checked by vm_compute",
    technique="Coq proof (induction over the grammar derivation, fused lexer/machine run) + differential correspondence via extracted model")
 CLAIMED["C18"] = dict(engine="latexwrap", design="4 C18",
-  text="PARTIAL: Coq theorems for the wrapper _PyStringTransformerMiddleware with the converter as an arbitrary function (one-equation characterisation: visited texts incl. order first,last,von,jr, write-back, scope/types, error containment for every failure incl. exceptions without message, library level, conditional round trip), tied to /repo by differential correspondence through the real Latex{En,De}codingMiddleware classes with custom stub converters implementing the same table as the model; the round trip through real pylatexenc is validated by TESTING only (1 000 / 40 000 texts x option sets), scope/type oracle under every constructor option.",
-  note="pylatexenc and the rules configured in latex_encoding.py are not modelled; round-trip clause tested, not proved; open findings K5 (greedy keep_math rule), K6 (URLs with % ~ &); single characters that pristine pylatexenc does not round-trip are excluded at run time and counted in the evidence tags",
+  text="PARTIAL: Coq theorems for the wrapper _PyStringTransformerMiddleware with the converter as an arbitrary function (one-equation characterisation: visited texts incl. order first,last,von,jr, write-back, scope/types, error containment for every failure incl. exceptions without message, library level, conditional round trip), tied to /repo by differential correspondence through the real Latex{En,De}codingMiddleware classes with custom stub converters implementing the same table as the model; the ENCODER RULES configured in latex_encoding.py (keep_math and URL patterns with their greedy semantics, rule order, replacements, advance) are modelled (Model/LatexRules.v) with pylatexenc's per-character default conversion as an oracle, proved (C18_rules_off, C18_rules_keep_math_first_to_last_dollar = root cause of K5, C18_rules_url_raw = root cause of K6) and compared with LatexEncodingMiddleware on every run (op 121); the round trip through real pylatexenc is validated by TESTING only (1 000 / 40 000 texts x option sets), scope/type oracle under every constructor option.",
+  note="pylatexenc (conversion table, LaTeX parser, hence the decoder) is not modelled; round-trip clause tested, not proved; open findings K5 (greedy keep_math rule), K6 (URLs with % ~ &), K12 (TeX ligature sequences, the characters \" ^ and ten accented Latin letters: texts the property names, run and attributed, not left out); letters OUTSIDE the alphabet the property names that pristine pylatexenc does not round-trip are excluded at run time and counted in the evidence tags",
   technique="Coq proof of the wrapper + differential correspondence with stub converters + randomized round-trip testing of the third-party converter")
 CLAIMED["C07"] = dict(engine="heap", design="4 C07",
   text="Coq theorems over a heap model (objects with identity) of the middleware FRAMEWORK (BlockMiddleware.transform/transform_block, "
@@ -143,7 +143,7 @@ CLAIMED["C07"] = dict(engine="heap", design="4 C07",
        "copy AND in-place mode, comparing the exact sharing pattern.",
   note="ASSUMED of CPython: copy.deepcopy meets dc_contract (explicit hypothesis DC of every theorem, no axiom); the executable fuelled graph "
        "copy used to run the model is PROVED total on every well-formed heap and an instance of dc_contract (C07_deepcopy_exec_total, "
-       "C07_deepcopy_exec_contract, C07_stack_exec: the stack theorem with no DC hypothesis) and is compared with CPython's deepcopy on every "
+       "C07_deepcopy_exec_contract, C07_stack_exec: the stack theorem with no DC hypothesis), PROVED to be a graph isomorphism of everything reachable from the root onto fresh objects (C07_deepcopy_exec_iso, C07_deepcopy_exec_iso_onto: content and sharing, not only freshness), and is compared with CPython's deepcopy on every "
        "run. PROVED for the framework, the probe bodies and the bodies of ALL shipped block middlewares, transcribed at heap level and proved "
        "footprint_ok for every string table (C07_shipped_footprints, C07_shipped_copy_mode, C07_shipped_stack, C07_write_string_default); the real "
        "shipped middlewares are compared with these body models in copy and in-place mode. 'writing twice gives identical text' is tested; the theorem gives "
